@@ -417,7 +417,13 @@ def r6_safe_actions_cache(ctx, rule="C15.R6"):
                        detail=None if p is None else {"path_without_refresh": g.describe_path(p)}, stmt=f"refresh {what}")
     for n in g.nodes:
         if n.id in keys:
-            ctx.ob(rule, SAF, "SafeLearner.predict", n.ast, "the cache key is the offered action list", unparse(n.ast.value) == "actions")
+            v = n.ast.value
+            # the key is a SNAPSHOT of the offered list: a reference to the caller's list compares equal to itself after the caller changed it in place
+            snapshot = unparse(v) in ("list(actions)", "actions[:]", "actions.copy()", "copy(actions)", "tuple(actions)") or \
+                (isinstance(v, ast.IfExp) and unparse(v.body) in ("list(actions)", "actions[:]", "actions.copy()", "tuple(actions)") and unparse(v.orelse) == "actions"
+                 and "list" in unparse(v.test))
+            ctx.ob(rule, SAF, "SafeLearner.predict", n.ast, "the cache key is a snapshot (copy) of the offered action list, not a reference the caller can change in place", snapshot,
+                   detail={"key": unparse(v)})
         if n.id in vals:
             v = n.ast.value
             ok = unparse(v) == "actions" or isinstance(v, ast.ListComp) and unparse(v.generators[0].iter) == "actions" or \
@@ -599,6 +605,7 @@ def _body_of(st):
 
 
 CONTROLS = [
+    ("safe-action cache keyed by the caller's own list", SAF, M.replace_expr("SafeLearner.predict", "list(actions) if actions.__class__ is list else actions", "actions"), "C15.R6"),
     ("one item answers are not classified", SAF, M.replace_expr("SafeLearner.pred_format", "len(std_pred) > 2 or len(std_pred) == 1", "len(std_pred) > 2"), "C15.R14"),
     ("weighted choice by left bisection", "coba/random.py", M.replace_expr("CobaRandom.choice", "next(compress(seq, map(partial(lt, next(self._randu) * tot), accumulate(weights))))",
                                                                            "seq[__import__('bisect').bisect_left(list(accumulate(weights)), next(self._randu) * tot)]"), "C15.R13"),
@@ -612,7 +619,7 @@ CONTROLS = [
     ("kwargs must be a dict", SAF, M.replace_expr("SafeLearner.has_kwargs", "abc.Mapping", "dict"), "C15.R9"),
     ("seed 0 treated as missing", "coba/evaluators/sequential.py", M.replace_expr("SequentialCB.evaluate", "self._seed if self._seed is not None else CobaContext.store.get('experiment_seed')", "self._seed or CobaContext.store.get('experiment_seed')"), "C15.R10"),
     ("probe loses batch marker", SAF, M.replace_expr("SafeLearner.batch_order", "predictor(Batch([context[0]]), Batch([actions[0]]))", "predictor(context[:1], actions[:1])"), "C15.R7"),
-    ("cache key set on one branch only", SAF, M.replace_stmt("SafeLearner.predict", M.simple_has("self._prev_actions = actions"), "if 0 in actions: self._prev_actions = actions"), "C15.R6"),
+    ("cache key set on one branch only", SAF, M.replace_stmt("SafeLearner.predict", M.text_has("self._prev_actions = "), "if 0 in actions: self._prev_actions = list(actions)"), "C15.R6"),
     ("drop AX in col arm", SAF, lambda tree: _drop_arm(tree, "col", "AX"), "C15.R1"),
     ("pred_format returns AQ", SAF, M.replace_expr("SafeLearner.pred_format", "'AX*'", "'AQ*'"), "C15.R2"),
     ("fixed rng for PMF", SAF, M.replace_expr("SafeLearner._parse_pred", "self._rng.choicew(actions, pred)", "CobaRandom(1).choicew(actions, pred)"), "C15.R3"),
